@@ -339,3 +339,55 @@ def descent(rep, rule, mod, fname, storage):
               '(provided,) with None -> Interface (%d access forms)' % (storage, len(seen))
               if not problems else {'problems': sorted(set(problems))[:4]},
               construct='descent', node=f)
+
+
+def no_reentry(rep, rule, mod):
+    """The four storage primitives hold local references into the nested
+    registration mappings; a call of another storage writer while such a
+    reference is live may prune/replace the mapping it points into (the later
+    write then lands in a detached mapping).  Rule: none of them calls a
+    method that (transitively) writes the registration storage."""
+    from ..pyfront import methods_of
+    cls = find_def(mod, 'BaseAdapterRegistry')
+    ms = methods_of(cls)
+    writers = set()
+    for name, f in ms.items():
+        writes, D = shared.content_writes(f, ('_adapters', '_subscribers', '_provided'))
+        if writes:
+            writers.add(name)
+    changed = True
+    while changed:
+        changed = False
+        for name, f in ms.items():
+            if name in writers:
+                continue
+            for n in walk_local(f):
+                if isinstance(n, ast.Call) and isinstance(n.func, ast.Attribute) and \
+                        isinstance(n.func.value, ast.Name) and n.func.value.id == 'self' \
+                        and n.func.attr in writers:
+                    writers.add(name)
+                    changed = True
+    rep.require({'register', 'unregister', 'subscribe', 'unsubscribe'} <= writers,
+                'storage writers not recognised: %s' % sorted(writers))
+    for name in ('register', 'unregister', 'subscribe', 'unsubscribe'):
+        f = ms[name]
+        bad = []
+        for ps in normal(summaries(f)):
+            re = [e for e in ps.events
+                  if e.kind == 'call' and isinstance(e.r.func, ast.Attribute) and
+                  nt(e.r.func.value) == 'self' and e.r.func.attr in writers]
+            if not re:
+                continue
+            # pure delegation (nothing of the storage is touched on this path)
+            others = [e for e in ps.events if e not in re and not (
+                e.kind == 'call' and isinstance(e.r.func, ast.Name) and
+                e.r.func.id in ('isinstance', 'len', 'tuple', 'str', 'type'))]
+            if len(re) == 1 and not others:
+                continue
+            bad.extend(nt(e.r)[:70] for e in re)
+        rep.check(rule, 'BaseAdapterRegistry.' + name, not bad,
+                  'calls no other writer of the registration storage (writers: %s)'
+                  % sorted(writers) if not bad else
+                  {'re-entrant storage writer called while local references into '
+                   'the storage are live': sorted(set(bad))[:3]},
+                  construct='no-reentry', node=f)
